@@ -145,6 +145,7 @@ def build(ub, algebra_text):
     ub.out("pub type BitVecStack = Vec<BitVecValue>;\npub type ArrayStack = Vec<ArrayValue>;\n")
     ub.emit_fn(TYPES, "is_array_type", "verify", impl="impl Expr", spec_key="Expr::is_array_type", cfg={"receivers": {}, "no_canary": True})
     ub.emit_fn(TYPES, "is_bv_type", "verify", impl="impl Expr", spec_key="Expr::is_bv_type", cfg={"receivers": {}, "no_canary": True})
+    ub.emit_fn(NODES, "is_symbol", "verify", impl="impl Expr", cfg={"receivers": {}, "no_canary": True})
     ub.emit_fn(EVAL, "un_op", "stub")
     ub.emit_fn(EVAL, "bin_op", "stub")
     ub.emit_assumed("arm_array_store")
